@@ -74,6 +74,31 @@ def check(q):
             fails.append({"input": q, "merge": merge, "observation": "conversion changed the number of ranges"})
     if TR.fingerprint(t) != f0 or TR.layout(t) != l0:
         fails.append({"input": q, "observation": "input modified"})
+    # one transformer used again on the SAME tree object after the tree was edited in place: the answer is that of a fresh transformer
+    import copy
+    for merge in (False, True):
+        tr = OpenRangeTransformer(merge_ranges=merge)
+        work = copy.deepcopy(t)
+        try:
+            tr(work)
+            edited = False
+            for m in gen.nodes(work):
+                if type(m).__name__ in ("From", "To"):
+                    m.include = not m.include
+                    edited = True
+                    break
+                if type(m).__name__ == "Range":
+                    m.include_low = not m.include_low
+                    edited = True
+                    break
+            if edited:
+                n += 1
+                again, fresh = tr(work), OpenRangeTransformer(merge_ranges=merge)(work)
+                if not (again == fresh) or TR.fingerprint(again) != TR.fingerprint(fresh) or str(again) != str(fresh):
+                    fails.append({"input": q, "merge": merge, "signature": "history",
+                                  "observation": "after an in-place edit the same transformer gives %r, a fresh one %r" % (str(again), str(fresh))})
+        except Exception as e:  # noqa: BLE001
+            fails.append({"input": q, "merge": merge, "observation": "second use raised %r" % (e,)})
     return n, fails[:2]
 
 
